@@ -230,7 +230,10 @@ def emitEvent(self: Obj("YowLayer"), yowLayerEvent: Obj("YowLayerEvent")):
     ensures(implies(not is_none(self._YowLayer__upper) and not truthy(event_result("upper.onEvent", 0)) and old(yowLayerEvent.detached),
                     in_closure(event_arg("stack.execDetached", 0, 1),
                                lambda: n_events("upper.emitEvent") == 1 and same_obj(event_arg("upper.emitEvent", 0, 0), self._YowLayer__upper)
-                               and same_obj(event_arg("upper.emitEvent", 0, 1), yowLayerEvent) and n_events("upper.onEvent") == 0)))
+                               and same_obj(event_arg("upper.emitEvent", 0, 1), yowLayerEvent) and n_events("upper.onEvent") == 0,
+                               # the callback fires later; a link that is set is never cleared (links are written only by setLayers,
+                               # called by the stack constructor and addPostConstructLayer: bounded/stack_check.py scans the repository)
+                               given=lambda: not is_none(self._YowLayer__upper))))
     propagates("upper.onEvent")
     propagates("upper.emitEvent")
 
@@ -253,7 +256,8 @@ def broadcastEvent(self: Obj("YowLayer"), yowLayerEvent: Obj("YowLayerEvent")):
     ensures(implies(not is_none(self._YowLayer__lower) and not truthy(event_result("lower.onEvent", 0)) and old(yowLayerEvent.detached),
                     in_closure(event_arg("stack.execDetached", 0, 1),
                                lambda: n_events("lower.broadcastEvent") == 1 and same_obj(event_arg("lower.broadcastEvent", 0, 0), self._YowLayer__lower)
-                               and same_obj(event_arg("lower.broadcastEvent", 0, 1), yowLayerEvent) and n_events("lower.onEvent") == 0)))
+                               and same_obj(event_arg("lower.broadcastEvent", 0, 1), yowLayerEvent) and n_events("lower.onEvent") == 0,
+                               given=lambda: not is_none(self._YowLayer__lower))))
     propagates("lower.onEvent")
     propagates("lower.broadcastEvent")
 
